@@ -270,6 +270,10 @@ func (s *Service) handleBatchPickup(msg service.DIDCommMsg, myDID, theirDID stri
 		end = request.BatchSize
 	}
 
+	if end < 0 {
+		end = 0
+	}
+
 	outbox.LastDeliveredTime = time.Now()
 	outbox.LastRemovedTime = time.Now()
 
